@@ -795,7 +795,11 @@ func runC13(r *an.Run) {
 			}
 			del := f.Calls(an.CalleeNamed("ResolveContract"), false)
 			if need(o, f, "ResolveContract", del, 1) {
-				guarded(o, f, del[0], an.Truth(an.CallNamed("IsResolved", an.Param(0)), true, "currentContract.IsResolved()"))
+				// every deletion site: the one for a contract restored in the
+				// resolved state and the one of the resolution loop
+				for _, d := range del {
+					guarded(o, f, d, an.Truth(an.CallNamed("IsResolved", an.Param(0)), true, "currentContract.IsResolved()"))
+				}
 			}
 			sc := p.Func(cc + "boltArbitratorLog.SwapContract")
 			lf := theLit(sc, kvUpdate, "SwapContract transaction")
